@@ -140,3 +140,39 @@ def controlling_sources(body, block, **kw):
     for (b, s) in body.control_deps_trans(block, "all"):
         out.append((b, s, branch_sources(body, b, **kw)))
     return out
+
+
+def expr_key(body, operand, depth=0):
+    """canonical string of the expression that defines an operand (through single-definition temporaries):
+    two operands with equal keys are the same pure expression over the same inputs (local value numbering)."""
+    if depth > 25:
+        return "?deep"
+    if operand["k"] == "const":
+        return "c:%s:%s" % (operand.get("val", operand.get("def", "")), operand.get("t", ""))
+    if operand["k"] not in ("copy", "move"):
+        return "?"
+    p = operand["p"]
+    proj = "".join("." + (e.get("name") or e["k"]) for e in p.get("proj", []))
+    l = p["l"]
+    if body.is_arg(l):
+        return "a%d%s" % (l, proj)
+    d = body.single_def(l)
+    if d is None:
+        return "l%d%s" % (l, proj)
+    if d[0] == "call":
+        t = d[3]
+        cp = callee_path(t) or "?"
+        if cp in PASS_THROUGH:
+            return expr_key(body, t["args"][0], depth + 1) + proj
+        return "%s(%s)%s" % (cp, ",".join(expr_key(body, a, depth + 1) for a in t["args"]), proj)
+    rv = d[3]["rv"]
+    k = rv["k"]
+    if k in ("use", "cast"):
+        return expr_key(body, rv["op"], depth + 1) + proj
+    if k in ("ref", "rawptr"):
+        return "&" + expr_key(body, {"k": "copy", "p": rv["p"]}, depth + 1) + proj
+    if k == "binop":
+        return "%s(%s,%s)%s" % (rv["op"].replace("WithOverflow", "").replace("Unchecked", ""), expr_key(body, rv["a"], depth + 1), expr_key(body, rv["b"], depth + 1), proj)
+    if k == "unop":
+        return "%s(%s)%s" % (rv["op"], expr_key(body, rv["a"], depth + 1), proj)
+    return "l%d%s" % (l, proj)
